@@ -3,6 +3,8 @@
 package segmenter
 
 import (
+	"unicode"
+
 	ucd "github.com/go-text/typesetting/unicodedata"
 )
 
@@ -219,7 +221,11 @@ func vfWordReps() []rune {
 
 func vfWordRef(text []rune) []bool {
 	n := len(text)
-	isC := func(i int, c *ucdTable) bool { return ucd.LookupWordBreakClass(text[i]) == c }
+	wordClass := make([]*ucdTable, n)
+	for j := range text {
+		wordClass[j] = ucd.LookupWordBreakClass(text[j])
+	}
+	isC := func(i int, c *ucdTable) bool { return wordClass[i] == c }
 	any := func(i int, cs ...*ucdTable) bool {
 		r := false
 		for _, c := range cs {
@@ -382,6 +388,239 @@ func VfH_C06_grapheme_long() {
 	want := vfGraphemeRef(text)
 	for i := 0; i <= n; i++ {
 		vfAssert((seg.attributes[i]&graphemeBoundary != 0) == want[i], "grapheme boundary differs from UAX #29 (GB rules)")
+	}
+	vfCover("inner-nobreak", n >= 2 && !want[1])
+	vfCover("inner-break", n >= 2 && want[1])
+	vfReach("end")
+}
+
+// ---- reference for UAX #14 line breaking (LB4..LB31, with the LB13/LB25 "Example 7" tailoring the
+// library documents), branch-free over class predicates ----
+//
+// Line rules read: the line-break class, the general category (Mn/Mc for SA, unassigned for LB30b),
+// LargeEastAsian (LB30), Extended_Pictographic (LB30b). Positions range over one representative per
+// combination of those.
+
+type vfLineKey struct {
+	class          *ucdTable
+	mnmc, ea, pic bool
+	unassigned     bool
+}
+
+func vfLineReps() []rune {
+	seen := map[vfLineKey]bool{}
+	var out []rune
+	for _, r := range vfReps {
+		t := ucd.LookupType(r)
+		k := vfLineKey{ucd.LookupLineBreakClass(r), t == unicode.Mn || t == unicode.Mc, unicode.Is(ucd.LargeEastAsian, r), vfIsPic(r), t == nil}
+		if !seen[k] {
+			seen[k] = true
+			out = append(out, r)
+		}
+	}
+	return out
+}
+
+// vfLineRef returns, per boundary 1..n-1, whether a break is allowed there.
+func vfLineRef(text []rune) []bool {
+	n := len(text)
+	// one table lookup per position and property
+	rawClass := make([]*ucdTable, n)
+	mnmc := make([]bool, n)
+	wide := make([]bool, n)  // LargeEastAsian
+	picCn := make([]bool, n) // Extended_Pictographic and unassigned
+	for j := range text {
+		rawClass[j] = ucd.LookupLineBreakClass(text[j])
+		t := ucd.LookupType(text[j])
+		mnmc[j] = vfOr(t == unicode.Mn, t == unicode.Mc)
+		wide[j] = unicode.Is(ucd.LargeEastAsian, text[j])
+		picCn[j] = vfAnd(vfIsPic(text[j]), t == nil)
+	}
+	raw := func(j int, c *ucdTable) bool { return rawClass[j] == c }
+	// LB1
+	cls := func(j int, c *ucdTable) bool {
+		switch c {
+		case ucd.BreakAL:
+			return vfOr(vfOr(raw(j, ucd.BreakAL), raw(j, ucd.BreakAI)), vfOr(vfOr(raw(j, ucd.BreakSG), raw(j, ucd.BreakXX)), vfAnd(raw(j, ucd.BreakSA), !mnmc[j])))
+		case ucd.BreakCM:
+			return vfOr(raw(j, ucd.BreakCM), vfAnd(raw(j, ucd.BreakSA), mnmc[j]))
+		case ucd.BreakNS:
+			return vfOr(raw(j, ucd.BreakNS), raw(j, ucd.BreakCJ))
+		}
+		return raw(j, c)
+	}
+	clsAny := func(j int, cs ...*ucdTable) bool {
+		r := false
+		for _, c := range cs {
+			r = vfOr(r, cls(j, c))
+		}
+		return r
+	}
+	hard := []*ucdTable{ucd.BreakBK, ucd.BreakCR, ucd.BreakLF, ucd.BreakNL}
+	cmz := make([]bool, n)      // CM or ZWJ
+	attached := make([]bool, n) // LB9: absorbed into the preceding character
+	for j := range text {
+		cmz[j] = clsAny(j, ucd.BreakCM, ucd.BreakZWJ)
+		if j > 0 {
+			attached[j] = vfAnd(cmz[j], !vfOr(clsAny(j-1, hard...), clsAny(j-1, ucd.BreakSP, ucd.BreakZW)))
+		}
+	}
+	// effective class after LB9/LB10 of a character that is not absorbed
+	eff := func(j int, cs ...*ucdTable) bool {
+		al := false
+		for _, c := range cs {
+			if c == ucd.BreakAL {
+				al = true
+			}
+		}
+		return vfAnd(!attached[j], vfOr(vfAnd(cmz[j], al), vfAnd(!cmz[j], clsAny(j, cs...))))
+	}
+	// prefix scans over the effective sequence: numeric sequences (LB25) and regional-indicator parity (LB30a)
+	numSeq := make([]bool, n)   // ends NU (NU|SY|IS)*
+	closeSeq := make([]bool, n) // ends NU (NU|SY|IS)* (CL|CP)
+	riOdd := make([]bool, n)
+	for j := 0; j < n; j++ {
+		pNum, pClose, pOdd := false, false, false
+		if j > 0 {
+			pNum, pClose, pOdd = numSeq[j-1], closeSeq[j-1], riOdd[j-1]
+		}
+		numSeq[j] = vfOr(vfAnd(attached[j], pNum), vfAnd(!attached[j], vfOr(eff(j, ucd.BreakNU), vfAnd(pNum, eff(j, ucd.BreakSY, ucd.BreakIS)))))
+		closeSeq[j] = vfOr(vfAnd(attached[j], pClose), vfAnd(!attached[j], vfAnd(pNum, eff(j, ucd.BreakCL, ucd.BreakCP))))
+		riOdd[j] = vfOr(vfAnd(attached[j], pOdd), vfAnd(!attached[j], vfAnd(eff(j, ucd.BreakRI), !pOdd)))
+	}
+
+	out := make([]bool, n+1)
+	out[n] = true
+	for i := 1; i < n; i++ {
+		sel1 := make([]bool, n) // nearest character left of the boundary that is not absorbed
+		sel2 := make([]bool, n) // the one before it
+		selR := make([]bool, n) // nearest character right of position i that is not absorbed
+		selS := make([]bool, n) // X of "X SP* x": everything between X and the boundary is absorbed or SP
+		for j := 0; j < i; j++ {
+			allAtt, oneKept, allAttOrSp := true, false, true
+			for k := j + 1; k < i; k++ {
+				oneKept = vfOr(vfAnd(oneKept, attached[k]), vfAnd(allAtt, !attached[k]))
+				allAtt = vfAnd(allAtt, attached[k])
+				allAttOrSp = vfAnd(allAttOrSp, vfOr(attached[k], cls(k, ucd.BreakSP)))
+			}
+			sel1[j] = vfAnd(!attached[j], allAtt)
+			sel2[j] = vfAnd(!attached[j], oneKept)
+			selS[j] = vfAnd(vfAnd(!attached[j], !cls(j, ucd.BreakSP)), allAttOrSp)
+		}
+		for j := i + 1; j < n; j++ {
+			allAtt := true
+			for k := i + 1; k < j; k++ {
+				allAtt = vfAnd(allAtt, attached[k])
+			}
+			selR[j] = vfAnd(!attached[j], allAtt)
+		}
+		pick := func(sel []bool, cs ...*ucdTable) bool {
+			r := false
+			for j := range sel {
+				if j != i {
+					r = vfOr(r, vfAnd(sel[j], eff(j, cs...)))
+				}
+			}
+			return r
+		}
+		l1 := func(cs ...*ucdTable) bool { return pick(sel1, cs...) }
+		l2 := func(cs ...*ucdTable) bool { return pick(sel2, cs...) }
+		r1 := func(cs ...*ucdTable) bool { return pick(selR, cs...) }
+		bs := func(cs ...*ucdTable) bool { return pick(selS, cs...) }
+		r0 := func(cs ...*ucdTable) bool { return eff(i, cs...) }
+		l1Num, l1Close, l1Odd, l1CpNarrow, l1PicCn := false, false, false, false, false
+		for j := 0; j < i; j++ {
+			l1Num = vfOr(l1Num, vfAnd(sel1[j], numSeq[j]))
+			l1Close = vfOr(l1Close, vfAnd(sel1[j], closeSeq[j]))
+			l1Odd = vfOr(l1Odd, vfAnd(sel1[j], riOdd[j]))
+			l1CpNarrow = vfOr(l1CpNarrow, vfAnd(sel1[j], vfAnd(eff(j, ucd.BreakCP), !wide[j])))
+			l1PicCn = vfOr(l1PicCn, vfAnd(sel1[j], picCn[j]))
+		}
+		AL, HL, NU, PR, PO, OP, HY := ucd.BreakAL, ucd.BreakHL, ucd.BreakNU, ucd.BreakPR, ucd.BreakPO, ucd.BreakOP, ucd.BreakHY
+		CL, CP, IS, SY := ucd.BreakCL, ucd.BreakCP, ucd.BreakIS, ucd.BreakSY
+		JL, JV, JT, H2, H3 := ucd.BreakJL, ucd.BreakJV, ucd.BreakJT, ucd.BreakH2, ucd.BreakH3
+
+		// rules that decide before LB9 and read the raw neighbours
+		lb45 := vfOr(vfOr(cls(i-1, ucd.BreakBK), vfOr(cls(i-1, ucd.BreakLF), cls(i-1, ucd.BreakNL))), vfAnd(cls(i-1, ucd.BreakCR), !cls(i, ucd.BreakLF))) // mandatory break
+		lb5no := vfAnd(cls(i-1, ucd.BreakCR), cls(i, ucd.BreakLF))
+		lb6 := clsAny(i, hard...)
+		lb7 := clsAny(i, ucd.BreakSP, ucd.BreakZW)
+		lb8 := bs(ucd.BreakZW)
+		lb8a := cls(i-1, ucd.BreakZWJ)
+		lb9 := attached[i]
+
+		no := func(bs ...bool) bool {
+			r := false
+			for _, b := range bs {
+				r = vfOr(r, b)
+			}
+			return r
+		}
+		lb11 := vfOr(r0(ucd.BreakWJ), l1(ucd.BreakWJ))
+		lb12 := l1(ucd.BreakGL)
+		lb12a := vfAnd(!l1(ucd.BreakSP, ucd.BreakBA, HY), r0(ucd.BreakGL))
+		lb13 := vfOr(r0(ucd.BreakEX), vfAnd(!l1(NU), r0(CL, CP, IS, SY)))
+		lb14 := bs(OP)
+		lb15 := vfAnd(bs(ucd.BreakQU), r0(OP))
+		lb16 := vfAnd(bs(CL, CP), r0(ucd.BreakNS))
+		lb17 := vfAnd(bs(ucd.BreakB2), r0(ucd.BreakB2))
+		first := no(lb11, lb12, lb12a, lb13, lb14, lb15, lb16, lb17) // all "no break"
+		lb18 := l1(ucd.BreakSP)                                    // break
+		lb19 := vfOr(r0(ucd.BreakQU), l1(ucd.BreakQU))
+		lb20 := vfOr(r0(ucd.BreakCB), l1(ucd.BreakCB)) // break
+		lb21 := vfOr(r0(ucd.BreakBA, HY, ucd.BreakNS), l1(ucd.BreakBB))
+		lb21a := vfAnd(l2(HL), l1(HY, ucd.BreakBA))
+		lb21b := vfAnd(l1(SY), r0(HL))
+		lb22 := r0(ucd.BreakIN)
+		lb23 := vfOr(vfAnd(l1(AL, HL), r0(NU)), vfAnd(l1(NU), r0(AL, HL)))
+		lb23a := vfOr(vfAnd(l1(PR), r0(ucd.BreakID, ucd.BreakEB, ucd.BreakEM)), vfAnd(l1(ucd.BreakID, ucd.BreakEB, ucd.BreakEM), r0(PO)))
+		lb24 := vfOr(vfAnd(l1(PR, PO), r0(AL, HL)), vfAnd(l1(AL, HL), r0(PR, PO)))
+		lb25 := no(
+			vfAnd(l1(PR, PO), vfOr(r0(NU), vfAnd(r0(OP, HY), r1(NU)))),
+			vfAnd(l1(OP, HY), r0(NU)),
+			vfAnd(l1Num, r0(NU, SY, IS, CL, CP)),
+			vfAnd(vfOr(l1Num, l1Close), r0(PO, PR)))
+		lb26 := no(vfAnd(l1(JL), r0(JL, JV, H2, H3)), vfAnd(l1(JV, H2), r0(JV, JT)), vfAnd(l1(JT, H3), r0(JT)))
+		lb27 := vfOr(vfAnd(l1(JL, JV, JT, H2, H3), r0(PO)), vfAnd(l1(PR), r0(JL, JV, JT, H2, H3)))
+		lb28 := vfAnd(l1(AL, HL), r0(AL, HL))
+		lb29 := vfAnd(l1(IS), r0(AL, HL))
+		lb30 := vfOr(vfAnd(l1(AL, HL, NU), vfAnd(r0(OP), !wide[i])), vfAnd(l1CpNarrow, r0(AL, HL, NU)))
+		lb30a := vfAnd(vfAnd(l1(ucd.BreakRI), l1Odd), r0(ucd.BreakRI))
+		lb30b := vfOr(vfAnd(l1(ucd.BreakEB), r0(ucd.BreakEM)), vfAnd(l1PicCn, r0(ucd.BreakEM)))
+		rest := no(lb21, lb21a, lb21b, lb22, lb23, lb23a, lb24, lb25, lb26, lb27, lb28, lb29, lb30, lb30a, lb30b)
+
+		// priority cascade, first match wins:
+		//  LB4/5 break | LB5,6,7 no | LB8 break | LB8a,9 no | LB11-17 no | LB18 break | LB19 no | LB20 break | LB21-30b no | LB31 break
+		tail := vfOr(lb20, !rest)
+		tail = vfAnd(!lb19, tail)
+		tail = vfOr(lb18, tail)
+		tail = vfAnd(!first, tail)
+		tail = vfAnd(!vfOr(lb8a, lb9), tail)
+		tail = vfOr(lb8, tail)
+		tail = vfAnd(!no(lb5no, lb6, lb7), tail)
+		out[i] = vfOr(lb45, tail)
+	}
+	return out
+}
+
+// H-C06-line: the real Segmenter.Init against the UAX #14 reference on every sequence of line-rule
+// representatives of the bounded length.
+func VfH_C06_line() {
+	max := 2
+	if vfThorough() {
+		max = 3
+	}
+	reps := vfLineReps()
+	n := 1 + vfChoice("textLen", max)
+	text := make([]rune, n)
+	for i := range text {
+		text[i] = reps[vfInt("lineRep", 0, len(reps)-1)]
+	}
+	var seg Segmenter
+	seg.Init(text)
+	want := vfLineRef(text)
+	for i := 0; i <= n; i++ {
+		vfAssert((seg.attributes[i]&lineBoundary != 0) == want[i], "line break opportunity differs from UAX #14 (LB rules)")
 	}
 	vfCover("inner-nobreak", n >= 2 && !want[1])
 	vfCover("inner-break", n >= 2 && want[1])
